@@ -24,6 +24,8 @@ type C10Scn struct {
 	Ops      [][]EvOp `json:"ops"`
 	RecLvl   []string `json:"record_levels"` // level for Record ops, indexed by op position modulo
 	Clock    int      `json:"clock_moves"`   // clock advances the scheduler may take
+	HooksLate bool    `json:"hooks_late,omitempty"`   // the hooks are assigned after Refresh, not before
+	ConLayout string  `json:"console_layout,omitempty"` // sync/async: a second reference to a Console appender with this layout
 	Style    Style    `json:"style"`
 }
 
@@ -54,7 +56,14 @@ func (c10) Gen(rt *rapid.T, thorough bool) any {
 		n := rapid.IntRange(1, 8).Draw(rt, "nops")
 		var ops []EvOp
 		for i := 0; i < n; i++ {
-			ops = append(ops, EvOp{Kind: rapid.IntRange(0, 14).Draw(rt, "kind"), Size: rapid.SampledFrom([]int{0, 12}).Draw(rt, "size"), Ctx: rapid.IntRange(0, 3).Draw(rt, "ctx")})
+			ctx := rapid.IntRange(0, 3).Draw(rt, "ctx")
+			switch rapid.IntRange(0, 7).Draw(rt, "ctx_done") {
+			case 0:
+				ctx |= 4 // already cancelled
+			case 1:
+				ctx |= 8 // deadline exceeded
+			}
+			ops = append(ops, EvOp{Kind: rapid.IntRange(0, 14).Draw(rt, "kind"), Size: rapid.SampledFrom([]int{0, 12}).Draw(rt, "size"), Ctx: ctx})
 		}
 		s.Ops = append(s.Ops, ops)
 	}
@@ -62,6 +71,8 @@ func (c10) Gen(rt *rapid.T, thorough bool) any {
 		s.RecLvl = append(s.RecLvl, rapid.SampledFrom(levelNames).Draw(rt, "reclvl"))
 	}
 	s.Clock = rapid.IntRange(0, 3).Draw(rt, "clock")
+	s.HooksLate = rapid.IntRange(0, 3).Draw(rt, "hooks_late") == 0
+	s.ConLayout = rapid.SampledFrom([]string{"", "JSONLayout", "TextLayout"}).Draw(rt, "con_layout")
 	return s
 }
 
@@ -69,7 +80,9 @@ func (c10) Run(x *Exec, scn any) {
 	s := scn.(*C10Scn)
 	o := x.Out
 	o.ScnDistinct = true
-	installHooks(s.TimeHook, s.StrHook, s.FldHook)
+	if !s.HooksLate || s.Mode == "builtin" {
+		installHooks(s.TimeHook, s.StrHook, s.FldHook)
+	}
 	tag := log.RegisterTag("hook_tag")
 	lr := mRange{0, 999, false}
 	if s.Mode != "builtin" {
@@ -80,6 +93,11 @@ func (c10) Run(x *Exec, scn any) {
 		spec := &SysSpec{Style: s.Style, Props: map[string]string{},
 			Apps: []AppSpec{{Name: "rec", Type: "Rec"}},
 			Logs: []LogSpec{{Name: "lg", Type: typ, Tags: []string{"hook_*"}, Level: s.Level, Refs: []RefSpec{{Ref: "rec"}}}}}
+		if s.ConLayout != "" {
+			// a second reference with the same (absent) bounds: both receive every enabled event
+			spec.Apps = append(spec.Apps, AppSpec{Name: "con", Type: "Console", Layout: s.ConLayout})
+			spec.Logs[0].Refs = append(spec.Logs[0].Refs, RefSpec{Ref: "con"})
+		}
 		cfg := spec.Render()
 		var err error
 		var pv any
@@ -90,6 +108,10 @@ func (c10) Run(x *Exec, scn any) {
 			return
 		}
 		lr, _ = modelRange(s.Level)
+		if s.HooksLate {
+			// hooks are plain package variables: assigning them after Refresh must work as well
+			installHooks(s.TimeHook, s.StrHook, s.FldHook)
+		}
 	}
 	type callRec struct {
 		sb             *Submitted
@@ -136,7 +158,9 @@ func (c10) Run(x *Exec, scn any) {
 	for _, w := range x.FS.StdoutWrites() {
 		if m := idInLine.FindSubmatch(w.Data); m != nil {
 			stdout[string(m[1])] = w.Data
-			recCount[string(m[1])]++
+			if s.Mode == "builtin" {
+				recCount[string(m[1])]++
+			}
 		}
 	}
 	enabledN, disabledN := 0, 0
@@ -235,6 +259,16 @@ func (c10) Run(x *Exec, scn any) {
 					o.violate("record-content", "C10/record-content/builtin", "%s: console line %q does not carry the hook results (time hook set=%v, ctx %q)", sb.ID, short(string(got), 200), s.TimeHook, wantCtx)
 				}
 				continue
+			}
+			if s.ConLayout != "" && s.TimeHook {
+				ref := *sb
+				ref.CtxStr, ref.CtxFlds = wantCtx, nil
+				if s.FldHook && k.ctxMode&2 != 0 {
+					ref.CtxFlds = ctxFields(k)
+				}
+				if got := stdout[sb.ID]; !bytes.Equal(got, refLine(&ref, s.ConLayout, 48, true)) {
+					o.violate("record-content", "C10/record-content/console-line", "%s: the console line %q does not carry this call's hook results; expected %q", sb.ID, short(string(got), 240), short(string(refLine(&ref, s.ConLayout, 48, true)), 240))
+				}
 			}
 			ev := recByID[sb.ID]
 			if ev.Ctx != wantCtx {
